@@ -213,11 +213,12 @@ func TestVerifC08Alphabet(t *testing.T) {
 			out := c08ExecCodec(c08.Case{Target: tg.name}, append([]byte(nil), f.Bytes...))
 			p.Distinct(tg.name + f.Name)
 			p.Outcome(strings.SplitN(out, " ", 2)[0])
-			if tg.name == "tars" && len(f.Bytes) >= 256 {
-				// tars/decoder.go hands the 4-byte length prefix to the TLV reader, so frames of 256 bytes and
-				// more (any frame with a STRING4) are rejected by the real decoder: a C01/C07 matter, not C08.
-				// The frame stays in the alphabet (its corruptions are inputs like any other).
-				p.Count("tars frames >=256 bytes rejected by the decoder (known C01/C07 defect)", 1)
+			if tg.name == "tars" && len(f.Bytes) >= 256 && !strings.HasPrefix(out, "frame rest=0 ") {
+				// before commit 3d58f0b70 tars/decoder.go handed the 4-byte length prefix to the TLV reader and
+				// rejected most frames of 256 bytes and more (any frame with a STRING4): a C01/C07 matter, not
+				// C08 - tolerated here so that the check also runs on such a tree; the frame stays in the
+				// alphabet (its corruptions are inputs like any other).
+				p.Count("tars frames >=256 bytes rejected by the decoder (C01/C07 defect)", 1)
 				continue
 			}
 			if !strings.HasPrefix(out, "frame rest=0 ") {
